@@ -291,20 +291,47 @@ func (m *execInitMsg) ToBytes() []byte {
 	return r
 }
 
+// maxExecFieldLen bounds the command and terminal fields of an execInitMsg.
+// Their length prefixes come from the peer and must not size an allocation
+// unchecked.
+const maxExecFieldLen = 1 << 20
+
+// errExecFieldTooLong is returned by GetCmd for an oversized length prefix.
+var errExecFieldTooLong = errors.New("exec init message field too long")
+
+// readExecField reads one 32-bit length-prefixed field of an execInitMsg.
+func readExecField(c io.Reader) ([]byte, error) {
+	l := make([]byte, 4)
+	if _, err := io.ReadFull(c, l); err != nil {
+		return nil, err
+	}
+	n := binary.BigEndian.Uint32(l)
+	if n > maxExecFieldLen {
+		return nil, errExecFieldTooLong
+	}
+	buf := make([]byte, n)
+	if _, err := io.ReadFull(c, buf); err != nil {
+		return nil, err
+	}
+	return buf, nil
+}
+
 // GetCmd reads execInitMsg from an EXEC_CHANNEL and returns the cmd to run
 func GetCmd(c net.Conn) (string, string, bool, *pty.Winsize, error) {
-	//TODO (drebelsky): consider handling io errors
 	t := make([]byte, 1)
-	io.ReadFull(c, t)
+	if _, err := io.ReadFull(c, t); err != nil {
+		return "", "", false, nil, err
+	}
 	usePty := (t[0] & usePtyFlag) != 0
 	hasSize := (t[0] & hasSizeFlag) != 0
-	l := make([]byte, 4)
-	io.ReadFull(c, l)
-	buf := make([]byte, binary.BigEndian.Uint32(l))
-	io.ReadFull(c, buf)
-	io.ReadFull(c, l)
-	term := make([]byte, binary.BigEndian.Uint32(l))
-	io.ReadFull(c, term)
+	buf, err := readExecField(c)
+	if err != nil {
+		return "", "", false, nil, err
+	}
+	term, err := readExecField(c)
+	if err != nil {
+		return "", "", false, nil, err
+	}
 	var size *pty.Winsize
 	if hasSize {
 		size, _ = readSize(c)
